@@ -25,7 +25,8 @@ RULE = (
     "base version; final version = initial + successes; the final row holds the tag of EVERY successful writer; every "
     "loser raised ConcurrencyError; nothing of a failed save ever becomes durable (if it left its implicit transaction "
     "open, the harness commits that connection as the next operation would, then looks for the loser's tag). Engine level: two upstream CompleteStage "
-    "handlers updating one DISCRIMINATOR / N_OF_M join (_completed_branches must hold both), CancelStage x CompleteTask. "
+    "handlers updating one DISCRIMINATOR / N_OF_M join (_completed_branches must hold both), the same bookkeeping write x the "
+    "StartStage handler planning that join, CancelStage x CompleteTask. "
     "Non-trivial = schedule where both writers read before either wrote (same base version); distinct = trace hash."
 )
 ASSUMPTIONS = ["SQLite backend, busy timeout 0 under the cooperative scheduler", "statement-level interleavings"]
@@ -52,7 +53,7 @@ def gen_cases(tier: str, seed: int) -> list[dict]:
                     cases.append({"kind": "api2", "modes": [mode_a, mode_b], "retry": retry, "chunk": c, "chunks": chunks, "seed": seed, "sample": 60 if tier == "quick" else 1500})
     for i in range(10 if tier == "quick" else 80):
         cases.append({"kind": "api3", "i": i, "seed": seed, "runs": 25})
-    for pair in ("join_tracking:DISCRIMINATOR", "join_tracking:N_OF_M", "cancel_complete"):
+    for pair in ("join_tracking:DISCRIMINATOR", "join_tracking:N_OF_M", "cancel_complete", "join_tracking_vs_plan:DISCRIMINATOR", "join_tracking_vs_plan:N_OF_M"):
         for c in range(chunks):
             cases.append({"kind": "engine", "pair": pair, "chunk": c, "chunks": chunks, "seed": seed, "sample": 100 if tier == "quick" else 2000})
     return cases
@@ -293,7 +294,9 @@ def _engine(case: dict) -> dict:
     if pair.startswith("join_tracking"):
         jt = pair.split(":")[1]
         spec = c04._join_spec(jt, 2 if jt == "DISCRIMINATOR" else 3)
-        cp = c04._cut("complete_complete", spec)
+        # ..._vs_plan: the second writer of the join's row is the StartStage handler that is planning the join
+        # (claim commit, then plan commit on a row the other upstream's bookkeeping write may have changed)
+        cp = c04._cut("complete_start" if pair.startswith("join_tracking_vs_plan") else "complete_complete", spec)
     else:
         spec = {"name": "cc", "confluent": False, "stages": [specs.st("a"), specs.st("j", ["a"], [dict(specs.OK, out=["j_o"]), dict(specs.OK)]), specs.st("z", ["j"])]}
         cp = _cut_cancel_complete(spec)
